@@ -166,6 +166,21 @@ impl Sampler {
             _ => return Err("dim".into()),
         })
     }
+    /// third format: value tree with structs written positionally (as sequences)
+    pub fn to_seq_value(&self) -> Result<Value, String> {
+        with_sampler!(self, s => crate::seqfmt::to_seq_value(s)).map_err(|e| e.to_string())
+    }
+    pub fn from_seq_value(dim: usize, v: Value) -> Result<Sampler, String> {
+        Ok(match dim {
+            1 => Sampler::D1(crate::seqfmt::from_seq_value(v)?),
+            2 => Sampler::D2(crate::seqfmt::from_seq_value(v)?),
+            3 => Sampler::D3(crate::seqfmt::from_seq_value(v)?),
+            4 => Sampler::D4(crate::seqfmt::from_seq_value(v)?),
+            5 => Sampler::D5(crate::seqfmt::from_seq_value(v)?),
+            6 => Sampler::D6(crate::seqfmt::from_seq_value(v)?),
+            _ => return Err("dim".into()),
+        })
+    }
     pub fn to_cbor(&self) -> Vec<u8> {
         let mut buf = vec![];
         with_sampler!(self, s => ciborium::ser::into_writer(s, &mut buf)).expect("cbor");
